@@ -171,9 +171,14 @@ class Fn:
         attr = f"__attribute__(({self.abi})) " if self.abi else ""
         return f"{attr}{r} {self.name}({ps})"
 
+    def basis(self):
+        """FNV basis salted with the function's own C name: a binding that reaches another function's symbol is observable."""
+        import zlib
+        return 1469598103934665603 ^ ((zlib.crc32(self.name.encode()) * 0x9E3779B97F4A7C15) & 0xFFFFFFFFFFFFFFFF)
+
     def c_def(self):
         """Definition: fold every argument leaf, store the hash in g_hash, derive the result from it."""
-        body = ["unsigned long long h = 1469598103934665603ull;"]
+        body = [f"unsigned long long h = {self.basis()}ull;"]
         for i, p in enumerate(self.params):
             a = f"a{i}"
             for (cs, _, k) in p.leaves:
